@@ -103,7 +103,7 @@ def split_and_parse(r, f, who, ty):
 
 def rule_size_table(ctx, p, cfg, rid="L1"):
     with ctx.rule(rid, "size multiplier table", cfg) as r:
-        f = p.fn(SIZE_V + "visit_str")
+        f = p.fn_closure_calls(SIZE_V + "visit_str")
         tests = tables.string_key_tests(f)
         sinks = {}
         for c in f.calls():
@@ -144,7 +144,7 @@ def rule_size_table(ctx, p, cfg, rid="L1"):
 
 def rule_size_overflow(ctx, p, cfg, rid="L2"):
     with ctx.rule(rid, "overflow checked", cfg) as r:
-        f = p.fn(SIZE_V + "visit_str")
+        f = p.fn_closure_calls(SIZE_V + "visit_str")
         muls = []
         bad = []
         for c in f.calls():
@@ -197,9 +197,9 @@ def run_cfg(ctx, p, cfg):
     rule_size_overflow(ctx, p, cfg, "L2")
 
     with ctx.rule("L3", "numbers", cfg) as r:
-        f = p.fn(SIZE_V + "visit_str")
+        f = p.fn_closure_calls(SIZE_V + "visit_str")
         split_and_parse(r, f, "size", "u64")
-        g = p.fn(TIME_V + "visit_str")
+        g = p.fn_closure_calls(TIME_V + "visit_str")
         split_and_parse(r, g, "interval", "i64")
         # bare number
         for who, fn_, want in (("size", f, None), ("interval", g, "Second")):
@@ -261,7 +261,7 @@ def run_cfg(ctx, p, cfg):
         r.floor("casts-of-deserialised-values", n, 1)
 
     with ctx.rule("L5", "interval unit table", cfg) as r:
-        g = p.fn(TIME_V + "visit_str")
+        g = p.fn_closure_calls(TIME_V + "visit_str")
         tests = tables.string_key_tests(g)
         sinks = {}
         for b, i, s in g.assigns():
